@@ -857,6 +857,28 @@ fn settle_after_pause(w: &mut World, found: &BTreeMap<u64, usize>, iv: Vec<(usiz
         w.satb_active = true;
         w.satb_new.clear();
         w.satb_keep = found.keys().cloned().collect();
+        if crate::world::watch_id() != 0 {
+            let id = crate::world::watch_id();
+            for (m, lr) in w.lroots.iter().enumerate() {
+                for (i, r) in lr.iter().enumerate() {
+                    if *r == id {
+                        eprintln!("WATCHID snapshot: held by local root {} of mutator {}", i, m);
+                    }
+                }
+            }
+            for (i, r) in w.groots.iter().enumerate() {
+                if *r == id {
+                    eprintln!("WATCHID snapshot: held by global root {}", i);
+                }
+            }
+            for o in w.objs.values() {
+                for (f, v) in o.fields.iter().enumerate() {
+                    if *v == id {
+                        eprintln!("WATCHID snapshot: held by field {} of object {} ({:#x} {}) reachable={}", f, o.id, o.addr, o.space, found.contains_key(&o.id));
+                    }
+                }
+            }
+        }
         w.count("satb_snapshots");
         return;
     }
@@ -869,7 +891,8 @@ fn settle_after_pause(w: &mut World, found: &BTreeMap<u64, usize>, iv: Vec<(usiz
                 continue;
             }
             if let Some(o) = w.objs.get(&id) {
-                check_intact(o, "C12", "satb-object-lost", &format!("after final mark pause {}", w.pause.n));
+                let part = if w.satb_new.contains(&id) { "allocated during marking" } else { "reachable at the snapshot" };
+                check_intact(o, "C12", "satb-object-lost", &format!("after final mark pause {} ({})", w.pause.n, part));
                 lost_ok += 1;
             }
         }
